@@ -54,6 +54,7 @@ func telnet.(Dialer).DialURLContext(d, ctx, url) (conn, err)
   call time.ParseDuration set gDur := $r0
   call time.ParseDuration set gDurErr := $r1
   ensures unparsable-timeout-is-an-error: gDurErr != nil ==> conn == nil && err != nil
+  ensures non-positive-timeout-is-an-error: gParsed && gDurErr == nil && gDur <= 0 ==> conn == nil && err != nil
   call context.WithTimeout requires the-configured-timeout: $1 > 0 && $1 == ite(gParsed, gDur, d.Timeout)
   call telnet.DialContext requires positive-timeout-applied: (len(gTimeoutStr) > 0 ==> gParsed && gDurErr == nil) && (ite(gParsed, gDur, d.Timeout) > 0 ==> gTimeoutSet)
 
